@@ -178,7 +178,24 @@ def positive_random(draw):
 
 @st.composite
 def negative_cases(draw):
-    kind = draw(st.sampled_from(["raw", "mut-b58", "mut-segwit", "unknown-b58-version", "pk-wrong-len-for-prefix", "pk-off-curve", "pk-x>=p", "pk-hybrid", "pk-bad-prefix", "b58-no-checksum", "segwit-wrong-hrp", "segwit-bad-proglen", "segwit-bad-proglen", "segwit-wrong-const", "segwit-bad-version", "segwit-nonzero-pad", "pk-coord-aliased", "b58-no-version"]))
+    kind = draw(st.sampled_from(["raw", "mut-b58", "mut-segwit", "unknown-b58-version", "pk-wrong-len-for-prefix", "pk-off-curve", "pk-x>=p", "pk-hybrid", "pk-bad-prefix", "b58-no-checksum", "segwit-wrong-hrp", "segwit-bad-proglen", "segwit-bad-proglen", "segwit-wrong-const", "segwit-bad-version", "segwit-nonzero-pad", "pk-coord-aliased", "b58-no-version", "segwit-mixed-case"]))
+    if kind == "segwit-mixed-case":
+        # a valid address with the case rule broken: whole HRP in one case and whole data part in the other, or one letter flipped
+        v = draw(st.integers(0, 16))
+        ln = draw(st.sampled_from([20, 32])) if v == 0 else draw(st.integers(2, 40))
+        a = rbech.encode_addr(draw(st.sampled_from(["bc", "tb", "bcrt"])), v, draw(st.binary(min_size=ln, max_size=ln)))
+        a = a if isinstance(a, bytes) else a.encode()
+        sep = a.rindex(b"1")
+        how = draw(st.sampled_from(["HRP", "DATA", "one"]))
+        if how == "HRP":
+            a = a[:sep].upper() + a[sep:]
+        elif how == "DATA":
+            a = a[: sep + 1] + a[sep + 1 :].upper()
+        else:
+            letters = [i for i, c in enumerate(a) if chr(c).isalpha()]
+            i = letters[draw(st.integers(0, len(letters) - 1))]
+            a = a[:i] + a[i : i + 1].upper() + a[i + 1 :]
+        return {"kind": kind, "data": a.hex()}
     if kind == "b58-no-version":
         # checksum-valid Base58Check strings too short to hold a known version byte: the empty payload (b"3QJmnh"),
         # or a single unknown version byte with nothing behind it
@@ -296,7 +313,7 @@ def _targets(tier):
                required=["nt:key-bytes-with-whitespace-or-nul-at-an-end"]),
         Target("negative", check_negative, strategy=lambda tier: negative_cases(), budget={"quick": 5000, "thorough": 100000},
                required=["nt:pk-wrong-len-for-prefix", "nt:unknown-b58-version", "nt:mut-segwit", "nt:mut-b58", "nt:pk-hybrid", "expect-refuse",
-                         "nt:segwit-bad-proglen", "nt:segwit-wrong-const", "nt:segwit-bad-version", "nt:segwit-nonzero-pad", "nt:pk-coord-aliased", "nt:b58-no-version"]),
+                         "nt:segwit-bad-proglen", "nt:segwit-wrong-const", "nt:segwit-bad-version", "nt:segwit-nonzero-pad", "nt:pk-coord-aliased", "nt:b58-no-version", "nt:segwit-mixed-case"]),
     ]
 
 
